@@ -133,7 +133,9 @@ func (p *IdP) respond(r *http.Request) (int, any, error) {
 		if p.Revoked[tok] || !strings.HasPrefix(tok, "at-") {
 			return js(401, map[string]any{"error": "invalid_token"})
 		}
-		return js(200, map[string]any{"sub": strings.TrimPrefix(tok, "at-"), "preferred_username": strings.TrimPrefix(tok, "at-")})
+		// "at-<user>" and "at-<user>~<n>" are access tokens of <user> (a user may hold several)
+		who := strings.SplitN(strings.TrimPrefix(tok, "at-"), "~", 2)[0]
+		return js(200, map[string]any{"sub": who, "preferred_username": who})
 	case "/token":
 		p.TokenCalls++
 		body, _ := io.ReadAll(r.Body)
